@@ -11,13 +11,13 @@ sends nothing, the script hook returns None, and none of the probes changes the 
 from symx import alg
 from harness.base import Scenario
 from harness import pipeline as pl, plugin_util as pu
-from harness.registry import _get_list, _same_list
+from harness.registry import _get_list, _same_list, _true_list
 
 PROPERTY = "C11"
 
 END_EVENTS = ["PRINT_DONE", "PRINT_FAILED", "PRINT_CANCELLING", "PRINT_CANCELLED", "ERROR"]
-STEPS = END_EVENTS + ["PRINT_STARTED", "PRINT_PAUSED", "PRINT_RESUMED", "FILE_SELECTED", "CONNECTED",
-                      "SETTINGS_FLIP_CLEAR"]
+STEPS = END_EVENTS + ["PRINT_STARTED", "PRINT_PAUSED", "PRINT_RESUMED", "FILE_SELECTED", "FILE_SELECTED_SD", "CONNECTED",
+                      "SETTINGS_FLIP_CLEAR", "ADD_REGION"]
 
 
 def snapshot(state):
@@ -62,7 +62,7 @@ def scen(w, K=2):
     w.cover("prefix-%d" % prefix)
     comm = pu.CommStub()
     if prefix >= 1:
-        plugin.on_event(Events.PRINT_STARTED, None)
+        pu.fire(plugin, "PRINT_STARTED")
         active = True
         pipe.prologue()
         if prefix == 2:
@@ -77,13 +77,23 @@ def scen(w, K=2):
         w.cover("step-" + name)
         pipe.program.append("<%s>" % name)
         w.note("program", list(pipe.program))
-        before_list = _get_list(plugin)
-        if name == "SETTINGS_FLIP_CLEAR":
+        before_list = _true_list(plugin)
+        if name == "ADD_REGION":
+            # a user draws a region (API request); regions may be defined at any time
+            plugin.on_api_command("addExcludeRegion", {"type": "RectangularRegion", "x1": 300 + k, "y1": 300,
+                                                       "x2": 310 + k, "y2": 310, "id": "added-%d" % k})
+            nregions += 1
+            if not w.check(len(_true_list(plugin)) == len(before_list) + 1, "region-can-be-added", str(pipe.program)):
+                return
+            continue
+        if name == "FILE_SELECTED_SD":
+            pu.fire(plugin, "FILE_SELECTED", pu.FILE_SD)
+        elif name == "SETTINGS_FLIP_CLEAR":
             clear = not clear
             plugin._verif_values["clearRegionsAfterPrintFinishes"] = clear
-            plugin.on_event(Events.SETTINGS_UPDATED, None)
+            pu.fire(plugin, "SETTINGS_UPDATED")
         else:
-            plugin.on_event(getattr(Events, name), None)
+            pu.fire(plugin, name)
         # ---- lifecycle machine (oracle) ----
         cleared = False
         if name == "PRINT_STARTED":
@@ -91,12 +101,12 @@ def scen(w, K=2):
         elif name in END_EVENTS:
             active = False
             cleared = clear
-        elif name == "FILE_SELECTED":
+        elif name in ("FILE_SELECTED", "FILE_SELECTED_SD"):
             cleared = True
         desc = "program %r (clear-after-print=%s)" % (pipe.program, clear)
         if not w.check(bool(plugin.isActivePrintJob) == active, "active-flag-follows-lifecycle", desc):
             return
-        after_list = _get_list(plugin)
+        after_list = _true_list(plugin)
         if cleared:
             nregions = 0
             if not w.check(len(after_list) == 0, "regions-removed", desc):
@@ -110,7 +120,7 @@ def scen(w, K=2):
         snap = snapshot(plugin.state)
         c2 = pu.CommStub()
         px, py = w.real("probe%d_X" % k), w.real("probe%d_Y" % k)
-        if nregions:
+        if nregions and len(_true_list(plugin)) and _true_list(plugin)[0]["id"] == "r0":
             w.assume(spec.contains(w, px, py))
         r1 = plugin.handleGcodeQueuing(c2, "queuing", "G1 X%s Y%s E5" % (w.key(px), w.key(py)), None, "G1")
         r2 = plugin.handleGcodeQueuing(c2, "queuing", "G91", None, "G91")
